@@ -31,7 +31,7 @@ ASSUMPTIONS = ['solo runs use private deep copies of the data', 'NaN outputs com
                'the hash-seed clause is checked on every 40th run (fresh interpreter per seed) and by the determinism self-test']
 REAL = common.REAL_ALL
 STUBS = common.STUBS_ALL
-PROBES = ['batch_boundary_sample_resent', 'shared_data_objects', 're_evaluate', 'bounded_future_on_short_trace', 'hashseed_leg', 'online_and_offline_cohosted',
+PROBES = ['solo_in_fresh_process', 'batch_boundary_sample_resent', 'shared_data_objects', 're_evaluate', 'bounded_future_on_short_trace', 'hashseed_leg', 'online_and_offline_cohosted',
           'dense_and_discrete_cohosted', 'read_only_columns_rejected']
 INTERLEAVING_MEASURE = 'distinct sequences of (object index, operation) in the schedule'
 
@@ -44,6 +44,9 @@ def gen(rng, tier):
     data = world.gen_trace(rng, vars_, n)
     signals = dict((v, world.gen_dense_signal(rng, rng.randint(2, 6), start_q=0, max_gap_q=4)[0]) for v in vars_)
     mons = []
+    # co-hosted discrete-time objects with the same sampling period (1 ms) but different default units: the same unit-less
+    # bound means 2 samples for one and 2000 for the other (unary bounded operators only, so that long windows stay cheap)
+    clash = rng.random() < 0.04
     for j in range(k):
         kind = rng.choice(['dt_off', 'dt_off', 'dt_on', 'ct_off', 'ct_on', 'dt', 'ct'])
         mode = 'off' if kind in ('dt_off', 'ct_off') else ('on' if kind in ('dt_on', 'ct_on') else rng.choice(['off', 'on']))
@@ -52,12 +55,18 @@ def gen(rng, tier):
             ops = common.DENSE_OFFLINE_OPS if dense else set(sg.ALL_OPS)
         else:
             ops = common.DENSE_PAST_OPS if dense else common.PAST_OPS
+        cfg_ = None
+        if clash and not dense:
+            ops = set(ops) - {'since_b', 'until_b', 'unless_b', 'exp'}
+            cfg_ = {'unit': rng.choice(['ms', 's']), 'sampling': [1, 'ms', 0.1]}
         for _ in range(50):
-            ast = sg.gen_formula(rng, sg.GenCfg(vars=vars_, ops=ops, max_depth=rng.randint(2, 4), max_bound=rng.choice([2, 4, 8]),
+            ast = sg.gen_formula(rng, sg.GenCfg(vars=vars_, ops=ops, max_depth=rng.randint(2, 3 if cfg_ else 4), max_bound=(2 if cfg_ else rng.choice([2, 4, 8])),
                                                 p_reuse=rng.choice([0.0, 0.2])))
             if sg.vars_of(ast):
                 break
         mo = {'kind': kind, 'mode': mode, 'ast': ast}
+        if cfg_:
+            mo['cfg'] = cfg_
         if rng.random() < 0.3 and sg.size(ast) >= 4:
             # the same requirement written with named sub-specifications
             defs, top = sg.modularize(rng, ast, max_subs=2, prefer_stateful=rng.random() < 0.5)
@@ -86,15 +95,21 @@ def gen(rng, tier):
             'dup_stamp': [v for v in vars_ if rng.random() < 0.6] if rng.random() < 0.12 else [],
             # recorded signals that end with an explicit "holds forever" sample [inf, last value] (dense offline objects)
             'inf_tail': [v for v in vars_ if rng.random() < 0.6] if rng.random() < 0.2 else [],
-            'hashseeds': [1, 2, 31337] if rng.random() < 0.025 else []}
+            'hashseeds': [1, 2, 31337] if rng.random() < 0.025 else [],
+            # every object is also run ALONE in a fresh interpreter (state that outlives an object - a process-wide cache - pollutes
+            # the in-process solo runs as well)
+            'solo_fresh': clash or rng.random() < 0.01}
 
 
 def _desc(sc, mo):
     dense = mo['kind'].startswith('ct')
     text = common.dense_text(mo['ast']) if dense else 'out = ' + sg.to_text(mo['ast']) + ';'
+    d = {'cls': mo['kind'], 'vars': common.var_decls(sc['vars']), 'spec': text}
     if mo.get('subs'):
-        return {'cls': mo['kind'], 'vars': common.var_decls(sc['vars']), 'spec': mo['top'], 'subspecs': list(mo['subs'])}
-    return {'cls': mo['kind'], 'vars': common.var_decls(sc['vars']), 'spec': text}
+        d = {'cls': mo['kind'], 'vars': common.var_decls(sc['vars']), 'spec': mo['top'], 'subspecs': list(mo['subs'])}
+    if mo.get('cfg'):
+        d.update(mo['cfg'])
+    return d
 
 
 def _ids(o, depth=0):
@@ -173,9 +188,11 @@ class Host(object):
             return
         if self.mo['mode'] == 'off':
             if self.dense:
+                M._do_failed_use(self.spec, signals=self.signals)      # run environment 'failed_eval' (this host calls evaluate itself)
                 args = [[v, self.signals[v]] for v in vars_]
                 out = self.call(lambda *a: M.api('evaluate', self.spec.evaluate, *a), *args)
             else:
+                M._do_failed_use(self.spec, times=list(self.data['time']))
                 ds = self.data            # the caller's dict itself, with a time column
                 out = self.call(lambda d: M.api('evaluate', self.spec.evaluate, d), ds)
             self.outs.append(out)
@@ -301,6 +318,24 @@ def run(sc):
             got = p.stdout.strip().splitlines()[-1] if p.stdout.strip() else ''
             if p.returncode != 0 or got != me:
                 r.violate('hashseed-independence', hashseed=hs, here=me[:500], there=got[:500], stderr=p.stderr[-300:])
+    # (v) each object alone in a process of its own
+    if sc.get('solo_fresh') and not r.violations:
+        r.probes['solo_in_fresh_process'] += 1
+        for j in range(len(sc['mons'])):
+            scj = dict(sc, mons=[sc['mons'][j]], schedule=[0 for t in sc['schedule'] if t == j], hashseeds=[], solo_fresh=False)
+            env = dict(os.environ)
+            env['PYTHONHASHSEED'] = '0'
+            code = ('import sys, json; sys.path.insert(0, %r); from sim.props import c11; from sim.core import Result, jdump; '
+                    'sc = json.load(sys.stdin); print(jdump(c11.in_process(sc, Result())))' % VERIF)
+            p = subprocess.run([sys.executable, '-B', '-c', code], input=json.dumps(scj), env=env, capture_output=True, text=True,
+                               timeout=120, cwd=VERIF)
+            r.evals += 1
+            r.faults['fresh_process_solo'] += 1
+            got = p.stdout.strip().splitlines()[-1] if p.stdout.strip() else ''
+            if p.returncode != 0 or got != jdump([outs[j]]):
+                r.violate('cohosted-equals-solo-in-fresh-process', object=j, kind=sc['mons'][j]['kind'], spec=_desc(sc, sc['mons'][j]),
+                          cohosted=jdump([outs[j]])[:600], alone=got[:600], stderr=p.stderr[-300:])
+                break
     nontriv = 0
     for o in outs:
         flat = repr(o)
